@@ -61,7 +61,7 @@ def run(ctx, replay=None):
         l1(ctx, "Capability", "CONSTANTS NP = %d\n MaxFlips = %d\nSPECIFICATION Spec\nINVARIANTS TypeOK EvidenceSound DetectionFaithful "
            "LockHeldInPing\nPROPERTIES Monotone\nCHECK_DEADLOCK FALSE\n" % ((3, 1) if ctx.quick else (4, 2)), name="L1-Capability", timeout=3000)
         out, summ = drive(ctx, {"VH_GATED": 1200 if ctx.quick else 40000, "VH_STRESS": 300 if ctx.quick else 5000})
-        cout, csumm = drive(ctx, {"VH_CAP": 1500 if ctx.quick else 60000}, "TestCapability", "cap")
+        cout, csumm = drive(ctx, {"VH_CAP": 1500 if ctx.quick else 20000}, "TestCapability", "cap")
     scen, cscen = {}, {}
     if out:
         scen = judge(ctx, "ReferrersMon", "referrers-round", out, summ)
